@@ -102,13 +102,15 @@ def chunker_section():
         # control flow of next_cut → guard functions, by path enumeration (cexpr.analyse_next_cut)
         defs = analyse_next_cut(src)
         m = {'start': defs['scanStart'], 'stride': defs['scanStride'], 'mi0': defs['scanInitIndex'], 'mv0': defs['scanInitValue']}
-    except Untranslatable as e:
+    except (Untranslatable, RecursionError, IndexError, KeyError, TypeError, ValueError, AttributeError) as e:
         notes['chunker'] = f'next_cut not recognised: {e}'
         ok = False
+        defs = {}
     km = None
     try:
         km = analyse_key(src, defs.get('keyFunction', 'key'))
-    except Untranslatable as e:
+    except (Untranslatable, RecursionError, IndexError, KeyError, TypeError, ValueError, AttributeError) as e:
+        km = None
         notes['chunker_key'] = f'key()/constructor: structure not recognised: {e}'
     if not cm:
         notes['chunker_key'] = 'constructor: reduction constant not recognised'
@@ -553,10 +555,19 @@ def _creates(events, P):
         raised = i + 1 < len(events) and events[i + 1].kind == 'raised'
         if raised:
             continue
-        if f[0] == 'attr' and nm in ('open', 'touch', 'write_bytes', 'write_text') and F.same(e.a[2][1], P):
+        if f[0] == 'attr' and nm in ('touch', 'write_bytes', 'write_text') and F.same(e.a[2][1], P):
             return True
-        if f == ('name', 'open') and args and F.same(args[0], P):
-            return True
+        mode = None
+        if f[0] == 'attr' and nm == 'open' and F.same(e.a[2][1], P):
+            mode = args[0] if args else _kw.get('mode', ('const', 'r'))
+        elif f == ('name', 'open') and args and F.same(args[0], P):
+            mode = args[1] if len(args) > 1 else _kw.get('mode', ('const', 'r'))
+        if mode is not None and mode[0] == 'const' and isinstance(mode[1], str):
+            if set(mode[1]) & set('wax'):
+                return True
+            # a successful open for reading / updating means the file was there — provided the failure is handled somewhere
+            if any(fr[0] == 'try' for fr in e.ctx):
+                return True
     return False
 
 
@@ -625,7 +636,13 @@ def _listed_afterwards(later, uid):
 def records_chunkless(path):
     """after the workers are done every streamed file that has no entry gets one with its digest / metadata and no chunks,
     in the dict whose values become the snapshot's file list"""
+    # only what happens after the workers have been awaited counts (before that the list of streamed files is incomplete)
+    joined = [i for i, e in enumerate(path.events) if e.kind == 'call' and e.a[0] == 'call' and func_name(F.strip(e.a[2])) in ('gather', 'wait', 'as_completed')]
+    if not joined:
+        return False
     for i, e in enumerate(path.events):
+        if i < joined[0]:
+            continue
         # the same as one statement: D.update({f.path: {…} for _, f in state.files if f.path not in D})
         if e.kind == 'call' and e.a[0] == 'call' and e.a[2][0] == 'attr' and e.a[2][2] == 'update' and len(e.a[3]) == 1 \
                 and e.a[3][0][0] == 'comp' and e.a[3][0][2] == 'dict' and len(e.a[3][0][4]) == 1:
@@ -1403,7 +1420,8 @@ def repository_section():
     def attempt(label, fn, default=None):
         try:
             return fn()
-        except (F.Unsupported, Untranslatable, AssertionError, KeyError, IndexError, TypeError, AttributeError, RecursionError) as e:
+        except (F.Unsupported, Untranslatable, AssertionError, KeyError, IndexError, TypeError, AttributeError, RecursionError,
+                ValueError, StopIteration) as e:
             notes[label] = f'not recognised: {e!r}'[:300]
             return default
 
@@ -1555,15 +1573,9 @@ def ratelimit_section():
     fp('utils.type_hint', find_func(tree, 'type_hint'))
     fp('utils.type_reverse', find_func(tree, 'type_reverse'))
     fp('utils.guess_type', find_func(tree, 'guess_type'))
-    vals = {}
-    for st in rl.body:
-        if isinstance(st, ast.Assign) and isinstance(st.targets[0], ast.Name):
-            try:
-                vals[st.targets[0].id] = ast.literal_eval(st.value)
-            except Exception:
-                pass
+    vals = class_consts(rl, module_consts(tree))
     for nm, lean in [('PAUSE_THRESHOLD_SECONDS', 'pauseThreshold'), ('PAUSE_LIMIT', 'pauseLimit')]:
-        if isinstance(vals.get(nm), (int, float)):
+        if isinstance(vals.get(nm), (int, float)) and not isinstance(vals.get(nm), bool):
             emit(f'def {lean} : Rat := {rat(vals[nm])}')
         else:
             emit(f'opaque {lean} : Rat')
@@ -1591,23 +1603,60 @@ def ratelimit_section():
 
 
 # ------------------------------------------------------------------ backends: retry policies, S3 quoting
+def retry_policy(tree, cls_name):
+    """the backoff.on_exception(…) policy that decorates the methods of a backend class, however it is spelled:
+    a module-level name, functools.partial(backoff.on_exception, …), a partial applied further, or the call itself.
+    Returns (positional args as source text, keywords as source text) when all decorated methods agree, else (None, None)."""
+    assigns = {}
+    for st in tree.body:
+        if isinstance(st, ast.Assign) and len(st.targets) == 1 and isinstance(st.targets[0], ast.Name):
+            assigns[st.targets[0].id] = st.value
+    consts = module_consts(tree)
+
+    def text(v):
+        if isinstance(v, ast.Name) and v.id in consts and not isinstance(consts[v.id], str):
+            return repr(consts[v.id])
+        return unparse(v)
+
+    def resolve(e, depth=0):
+        if depth > 6:
+            return None
+        if isinstance(e, ast.Name):
+            return resolve(assigns[e.id], depth + 1) if e.id in assigns else None
+        if isinstance(e, ast.Call):
+            fn = unparse(e.func)
+            args, kw = [text(a) for a in e.args], {k.arg: text(k.value) for k in e.keywords if k.arg}
+            if fn.split('.')[-1] == 'on_exception':
+                return args, kw
+            if fn.split('.')[-1] == 'partial' and e.args and unparse(e.args[0]).split('.')[-1] == 'on_exception':
+                return args[1:], kw
+            base = resolve(e.func, depth + 1)
+            if base is not None:
+                return base[0] + args, dict(base[1], **kw)
+        return None
+    cls = find_func(tree, cls_name)
+    found = []
+    for st in (cls.body if cls is not None else []):
+        if isinstance(st, (ast.FunctionDef, ast.AsyncFunctionDef)):
+            for d in st.decorator_list:
+                r = resolve(d)
+                if r is not None:
+                    found.append(r)
+    keyset = {(tuple(a[:2]), kw.get('max_tries'), kw.get('giveup')) for a, kw in found}
+    if len(keyset) != 1:
+        return None, None
+    return found[0]
+
+
 def backends_section():
     emit('/-! ## backends: retry policies, S3 signing inputs, B2 listing -/')
-    def deco_kwargs(src, varname):
-        tree = ast.parse(src)
-        for node in ast.walk(tree):
-            if isinstance(node, ast.Assign) and isinstance(node.targets[0], ast.Name) and node.targets[0].id == varname:
-                call = node.value
-                kw = {k.arg: unparse(k.value) for k in call.keywords}
-                args = [unparse(a) for a in call.args]
-                return args, kw
-        return None, None
     local = (REPO / 'replicat' / 'backends' / 'local.py').read_text()
     s3c = (REPO / 'replicat' / 'backends' / 's3c.py').read_text()
     b2 = (REPO / 'replicat' / 'backends' / 'b2.py').read_text()
     for nm, src in (('local', local), ('s3c', s3c), ('b2', b2)):
         fingerprints[f'backends/{nm}.py'] = hashlib.sha256(ast.dump(ast.parse(src)).encode()).hexdigest()[:16]
-    a, kw = deco_kwargs(local, 'backoff_on_oserror')
+    a, kw = retry_policy(ast.parse(local), 'Local')
+
     def tries(kw):
         try:
             v = int(kw.get('max_tries'))
@@ -1616,25 +1665,32 @@ def backends_section():
             return 'none'
     emit(f'def retryLocalMaxTries : Option Nat := {tries(kw or {})}')
     emit(f'def retryLocalCatchesOSError : Bool := {"true" if a and a[1:2] == ["OSError"] else "false"}')
-    a, kw = deco_kwargs(s3c, 'backoff_on_httperror')
+    s3tree = ast.parse(s3c)
+    a, kw = retry_policy(s3tree, 'S3Compatible')
     emit(f'def retryS3MaxTries : Option Nat := {tries(kw or {})}')
-    emit(f'def retryS3GiveupOn403 : Bool := {"true" if (kw or {}).get("giveup") == "_check_403" else "false"}')
-    a, kw = deco_kwargs(b2, '_backoff_decorator')
+    # give up on 403: the predicate is a function of the module that tests for the FORBIDDEN status
+    giveup = find_func(s3tree, (kw or {}).get('giveup') or '') if (kw or {}).get('giveup', '').isidentifier() else None
+    gtxt = unparse(giveup) if giveup is not None else ''
+    emit(f'def retryS3GiveupOn403 : Bool := {"true" if ("FORBIDDEN" in gtxt or "403" in gtxt) else "false"}')
+    a, kw = retry_policy(ast.parse(b2), 'B2')
     emit(f'def retryB2MaxTries : Option Nat := {tries(kw or {})}')
-    # S3 quoting
-    tree = ast.parse(s3c)
-    pr = find_func(tree, 'S3Compatible', '_prepare_request')
+    # S3 quoting: the quote / urlencode calls of the class that builds the request (wherever in the class they sit)
+    tree = s3tree
+    pr = find_func(tree, 'S3Compatible')
     quote_call = urlencode_call = None
     for node in ast.walk(pr):
-        if isinstance(node, ast.Call) and unparse(node.func) == 'quote':
+        if isinstance(node, ast.Call) and unparse(node.func).split('.')[-1] == 'quote' and quote_call is None:
             quote_call = node
-        if isinstance(node, ast.Call) and unparse(node.func) == 'urlencode':
+        if isinstance(node, ast.Call) and unparse(node.func).split('.')[-1] == 'urlencode':
             urlencode_call = node
+    s3consts = module_consts(tree)
     qsafe = '/'
     if quote_call is not None:
         for k in quote_call.keywords:
             if k.arg == 'safe':
-                qsafe = ast.literal_eval(k.value)
+                qsafe = const_eval(k.value, s3consts)
+        if len(quote_call.args) > 1:
+            qsafe = const_eval(quote_call.args[1], s3consts)
     emit(f'def s3PathSafe : String := {json.dumps(qsafe)}')
     via = 'quote_plus'
     usafe = ''
@@ -1642,17 +1698,25 @@ def backends_section():
     if urlencode_call is not None:
         for k in urlencode_call.keywords:
             if k.arg == 'quote_via':
-                via = unparse(k.value)
+                via = unparse(k.value).split('.')[-1]
             if k.arg == 'safe':
-                usafe = ast.literal_eval(k.value)
-        sorted_q = unparse(urlencode_call.args[0]).startswith('sorted(')
+                usafe = const_eval(k.value, s3consts)
+        arg0 = urlencode_call.args[0]
+        sorted_q = unparse(arg0).startswith('sorted(')
+        if isinstance(arg0, ast.Name):
+            # a local holding the sorted pairs
+            for node in ast.walk(pr):
+                if isinstance(node, ast.Assign) and any(isinstance(t, ast.Name) and t.id == arg0.id for t in node.targets):
+                    sorted_q = unparse(node.value).startswith('sorted(')
     emit(f'def s3QueryQuoteVia : String := {json.dumps(via)}')
     emit(f'def s3QuerySafe : String := {json.dumps(usafe)}')
     emit(f'def s3QuerySorted : Bool := {"true" if sorted_q else "false"}')
     hdrs = None
     for node in ast.walk(pr):
-        if isinstance(node, ast.Assign) and unparse(node.targets[0]) == 'canonical_headers' and isinstance(node.value, ast.Dict):
-            hdrs = [ast.literal_eval(k) for k in node.value.keys]
+        # the dict of headers that are signed: the display with a 'host' entry
+        if isinstance(node, ast.Dict) and all(isinstance(k, ast.Constant) and isinstance(k.value, str) for k in node.keys) \
+                and 'host' in [k.value for k in node.keys] and hdrs is None:
+            hdrs = [k.value for k in node.keys]
     emit('def s3SignedHeaders : List String := ' + ('[' + ', '.join(json.dumps(h) for h in hdrs) + ']' if hdrs else '[]'))
     m = re.search(r"'maxFileCount': ([\d_]+)", b2)
     emit(f'def b2MaxFileCount : Nat := {int(m.group(1).replace("_", ""))}' if m else 'opaque b2MaxFileCount : Nat')
